@@ -345,7 +345,13 @@ class time_limit:
 
 def check_find_answer(solver, backend=None):
     """returns None or a dict describing the failure"""
-    sols = den.brute_solutions(solver.variables, solver.constraints)
+    try:
+        sols = den.brute_solutions(solver.variables, solver.constraints)
+    except (AssertionError, den.IllTyped, IndexError) as e:
+        # a node posted by the library has no meaning in the reference semantics (e.g. the operand list of a native graph
+        # operator does not have the layout its own header announces): whatever a back end makes of it is not "the posted
+        # constraints"
+        return dict(kind="posted-node-is-malformed", detail="a posted constraint node cannot be evaluated by the reference semantics: %s: %s" % (type(e).__name__, str(e)[:200]))
     if sols is None:
         return None
     if getattr(solver, "verif_terms", None) is not None:
@@ -396,7 +402,10 @@ def expected_common(solver, keys):
 
 def check_solve(solver, keys, backend=None):
     import warnings
-    exp_sat, exp = expected_common(solver, keys)
+    try:
+        exp_sat, exp = expected_common(solver, keys)
+    except (AssertionError, den.IllTyped, IndexError) as e:
+        return dict(kind="posted-node-is-malformed", detail="a posted constraint node cannot be evaluated by the reference semantics: %s: %s" % (type(e).__name__, str(e)[:200]))
     if exp_sat is None:
         return None
     solver.is_answer_key = list(keys)
